@@ -98,6 +98,7 @@ pub fn g_call(g: &mut GraphicsContext, c: &Value) -> Result<(), String> {
             "set_word_spacing" => { g.set_word_spacing(n[0]); }
             "set_character_spacing" => { g.set_character_spacing(n[0]); }
             "paint_shading" => { g.paint_shading(name(c)); }
+            "draw_image" => { g.draw_image(name(c), n[0], n[1], n[2], n[3]); }
             other => tool_error(&format!("g call {other}")),
         }
     }
